@@ -543,7 +543,7 @@ func run(c *lib.Ctx) error {
 
 	t0 := time.Now()
 	var cases []VCase
-	skipped, leaks := 0, 0
+	skipped, leaks, pfLeaks := 0, 0, 0
 	const maxLeaks = 3 // enough to report; every further one costs the full settle limit
 	for i, g := range shapes {
 		if !rd.stdinRedirOK && retargetsPipedStdin(g.Shape) {
@@ -557,7 +557,7 @@ func run(c *lib.Ctx) error {
 		if hasKind(g.Shape, "sleep") {
 			vs = append(vs, variant{how: "inflight", inflight: 500 * time.Microsecond, long: true})
 		}
-		if pipeFailApplies(g.Shape) {
+		if pipeFailApplies(g.Shape) && pfLeaks < 2 { // a leaking case costs the full settle limit: two are enough to report
 			vs = append(vs, variant{how: "pipefail", pipefail: true})
 		}
 		for _, v := range vs {
@@ -576,6 +576,9 @@ func run(c *lib.Ctx) error {
 			c.Distinct(shapeKey(g.Shape) + "|" + v.how)
 			if (vc.Fd != 0 || vc.Go != 0) && !vc.PFail {
 				leaks++
+			}
+			if (vc.Fd != 0 || vc.Go != 0) && vc.PFail {
+				pfLeaks++
 			}
 		}
 		if leaks >= maxLeaks {
